@@ -221,6 +221,16 @@ let run_solve (h : (string, string) Hashtbl.t) : string =
             | SolOk v -> List.iter2 (fun a b -> let d = Float.abs (a -. b) in if d > !maxdev || Float.is_nan d then maxdev := d) v yi
             | _ -> incr fails) s.sol_t s.sol_y;
         Buffer.add_string buf (Printf.sprintf "selfsol fails=%d maxdev=%s\n" !fails (hx !maxdev)));
+     if get h "py" "0" = "1" then begin
+       let z_to_int = function Z0 -> 0 | Zpos p -> int_of_pos p | Zneg p -> - (int_of_pos p) in
+       Buffer.add_string buf (Printf.sprintf "pystatus %d %s\n" (z_to_int (py_status s.sol_status))
+                                (if py_success s.sol_status then "True" else "False"));
+       Buffer.add_string buf (Printf.sprintf "pystats %s %s %s\n" (string_of_n st.nfev)
+                                (if get h "constjac" "0" = "1" then "0" else string_of_n st.njev) (string_of_n st.nlu));
+       let flat = py_transpose 0.0 s.sol_y in
+       let n = match s.sol_y with [] -> 0 | y :: _ -> List.length y in
+       Buffer.add_string buf (Printf.sprintf "ypy %d %d %s\n" n (List.length s.sol_y) (hxlist flat))
+     end;
      List.iter (fun q ->
          match sol_eval fops meth (nat_of_int (List.length y0)) s q with
          | SolOk v -> Buffer.add_string buf (Printf.sprintf "sol %s ok %s\n" (hx q) (hxlist v))
@@ -409,6 +419,14 @@ let run_lowlevel (h : (string, string) Hashtbl.t) : string =
      log_summary "jaclog" (List.rev jl) full buf);
   Buffer.contents buf
 
+let run_group (h : (string, string) Hashtbl.t) : string =
+  (* cols=<k>:r,r|r|...  (rows of each column separated by '|', empty allowed) *)
+  let spec = body_after_colon (Hashtbl.find h "cols") in
+  let cols = if spec = "" then [] else
+      List.map (fun c -> if c = "" then [] else List.map (fun r -> nat_of_int (int_of_string r)) (split_on ',' c)) (split_on '|' spec) in
+  let (assign, ng) = group_columns cols in
+  Printf.sprintf "groups %s\nngroups %d\n" (String.concat "," (List.map (fun g -> string_of_int (int_of_nat g)) assign)) (int_of_nat ng)
+
 let () =
   try
     while true do
@@ -421,6 +439,7 @@ let () =
             (match kind with
              | "solve" -> run_solve h
              | "lowlevel" -> run_lowlevel h
+             | "group" -> run_group h
              | "matrix" -> run_matrix h
              | "lu" -> run_lu h
              | _ -> "unknown-kind\n")
